@@ -816,48 +816,67 @@ Proof.
   exists s3. split; [reflexivity|]. split; assumption.
 Qed.
 
-Lemma rp_close_step : forall T0 BLKS stf st id,
-  (rp_G1c T0 BLKS stf st \/ rp_done T0 BLKS stf st) ->
-  let st' := wm_close_signal summ1 summN st id in
-  (rp_G1c T0 BLKS stf st' \/ rp_done T0 BLKS stf st') /\ (id = sid -> rp_done T0 BLKS stf st') /\
-  (rp_done T0 BLKS stf st -> rp_done T0 BLKS stf st').
+Lemma rp_close_none : forall st id, wm_find_sig st id = None -> wm_close_signal summ1 summN st id = st.
+Proof. intros st id H. unfold wm_close_signal. rewrite H. reflexivity. Qed.
+
+Lemma rp_close_done : forall T0 BLKS stf st id, rp_done T0 BLKS stf st -> rp_done T0 BLKS stf (wm_close_signal summ1 summN st id).
 Proof.
-  intros T0 BLKS stf st id H st'.
-  assert (Hdone : rp_done T0 BLKS stf st -> rp_done T0 BLKS stf st').
-  { intros (Hb & Hidle & cs & HF & Hfil). subst st'.
-    destruct (wm_find_sig st id) as [s|] eqn:Ef.
-    - destruct (rp_find_id st id s Ef) as (Eid & Hin). rewrite Forall_forall in Hidle.
-      destruct (rp_close_signal_idle st id s Ef (Hidle s Hin)) as (s3 & -> & Eid3 & Hi3).
-      split; [exact Hb|]. split; [|exists cs; split; assumption].
-      unfold wm_put_sig. cbn [wm_st_sigs]. apply Forall_forall. intros y Hy. apply in_map_iff in Hy. destruct Hy as (y0 & <- & Hy0).
-      destruct (wm_sig_id y0 =? wm_sig_id s3); [exact Hi3|apply Hidle; exact Hy0].
-    - unfold wm_close_signal. rewrite Ef. split; [exact Hb|]. split; [exact Hidle|exists cs; split; assumption]. }
-  destruct H as [HG|HD]; [|split; [right; apply Hdone; exact HD|split; [intros _; apply Hdone; exact HD|exact Hdone]]].
-  destruct HG as (Hoth & s & f & Hfind & Hdef & Hfsr & Hits & HF).
-  destruct (N.eq_dec id sid) as [->|Hne].
-  - assert (Hd : rp_done T0 BLKS stf st'); [|split; [right; exact Hd|split; [intros _; exact Hd|exact Hdone]]].
-    (* the target *)
-    pose proof (rp_FInv_close summ1 summN d pos0 Hpos0 Hsid Hg_idx Hg_sum Hspd Hw Hg_data Hfill T0 BLKS stf (rp_fx st s f) HF) as P.
-    cbv zeta in P. remember (wm_fsr_close summ1 summN d (rp_fx st s f)) as X eqn:EX.
-    destruct P as (cs & new & HF2 & Hfil & _ & Hbok & _).
-    destruct (rp_close_target_eq st s f X Hfind Hfsr Hdef Hits (eq_sym EX)) as (s3 & Est & Eid3 & Hi3).
-    clear EX. subst st'. rewrite Est. unfold rf_out in Hfil.
-    split; [exact Hbok|]. split.
+  intros T0 BLKS stf st id (Hb & Hidle & cs & HF & Hfil).
+  destruct (wm_find_sig st id) as [s|] eqn:Ef.
+  - destruct (rp_find_id st id s Ef) as (Eid & Hin). rewrite Forall_forall in Hidle.
+    destruct (rp_close_signal_idle st id s Ef (Hidle s Hin)) as (s3 & -> & Eid3 & Hi3).
+    split; [exact Hb|]. split; [|exists cs; split; assumption].
+    unfold wm_put_sig. cbn [wm_st_sigs]. apply Forall_forall. intros y Hy. apply in_map_iff in Hy. destruct Hy as (y0 & <- & Hy0).
+    destruct (wm_sig_id y0 =? wm_sig_id s3); [exact Hi3|apply Hidle; exact Hy0].
+  - rewrite (rp_close_none st id Ef). split; [exact Hb|]. split; [exact Hidle|exists cs; split; assumption].
+Qed.
+
+Lemma rp_close_other : forall T0 BLKS stf st id, rp_G1c T0 BLKS stf st -> id <> sid -> rp_G1c T0 BLKS stf (wm_close_signal summ1 summN st id).
+Proof.
+  intros T0 BLKS stf st id (Hoth & s & f & Hfind & Hdef & Hfsr & Hits & HF) Hne.
+  destruct (wm_find_sig st id) as [s'|] eqn:Ef.
+  - destruct (rp_find_id st id s' Ef) as (Eid & Hin). rewrite Forall_forall in Hoth.
+    destruct (Hoth s' Hin) as [E|Hi]; [congruence|].
+    destruct (rp_close_signal_idle st id s' Ef Hi) as (s3 & -> & Eid3 & Hi3).
+    split.
     + unfold wm_put_sig. cbn [wm_st_sigs]. apply Forall_forall. intros y Hy. apply in_map_iff in Hy. destruct Hy as (y0 & <- & Hy0).
-      rewrite Forall_forall in Hoth. destruct (N.eqb_spec (wm_sig_id y0) (wm_sig_id s3)) as [E|E]; [exact Hi3|].
-      destruct (Hoth y0 Hy0) as [E'|Hi]; [rewrite Eid3 in E; contradiction|exact Hi].
-    + exists cs. split; [exact HF2|]. unfold rp_bout, wm_put_sig. cbn [wm_st_base]. exact Hfil.
-  - assert (Hg : rp_G1c T0 BLKS stf st'); [|split; [left; exact Hg|split; [intro E; contradiction|exact Hdone]]].
-    (* another signal: idle *)
-    subst st'. destruct (wm_find_sig st id) as [s'|] eqn:Ef.
-    + destruct (rp_find_id st id s' Ef) as (Eid & Hin). rewrite Forall_forall in Hoth.
-      destruct (Hoth s' Hin) as [E|Hi]; [congruence|].
-      destruct (rp_close_signal_idle st id s' Ef Hi) as (s3 & -> & Eid3 & Hi3).
-      split.
-      * unfold wm_put_sig. cbn [wm_st_sigs]. apply Forall_forall. intros y Hy. apply in_map_iff in Hy. destruct Hy as (y0 & <- & Hy0).
-        destruct (wm_sig_id y0 =? wm_sig_id s3); [right; exact Hi3|apply Hoth; exact Hy0].
-      * exists s, f. split; [rewrite rp_find_put_other by congruence; exact Hfind|]. split; [exact Hdef|]. split; [exact Hfsr|]. split; [exact Hits|exact HF].
-    + unfold wm_close_signal. rewrite Ef. split; [exact Hoth|]. exists s, f. split; [exact Hfind|]. split; [exact Hdef|]. split; [exact Hfsr|]. split; [exact Hits|exact HF].
+      destruct (wm_sig_id y0 =? wm_sig_id s3); [right; exact Hi3|apply Hoth; exact Hy0].
+    + exists s, f. split; [rewrite rp_find_put_other by congruence; exact Hfind|]. split; [exact Hdef|]. split; [exact Hfsr|]. split; [exact Hits|exact HF].
+  - rewrite (rp_close_none st id Ef). split; [exact Hoth|]. exists s, f. split; [exact Hfind|]. split; [exact Hdef|]. split; [exact Hfsr|]. split; [exact Hits|exact HF].
+Qed.
+
+Lemma rp_close_target : forall T0 BLKS stf st, rp_G1c T0 BLKS stf st -> rp_done T0 BLKS stf (wm_close_signal summ1 summN st sid).
+Proof.
+  intros T0 BLKS stf st (Hoth & s & f & Hfind & Hdef & Hfsr & Hits & HF).
+  pose proof (rp_FInv_close summ1 summN d pos0 Hpos0 Hsid Hg_idx Hg_sum Hspd Hw Hg_data Hfill T0 BLKS stf (rp_fx st s f) HF) as P.
+  cbv zeta in P. remember (wm_fsr_close summ1 summN d (rp_fx st s f)) as X eqn:EX.
+  destruct P as (cs & new & HF2 & Hfil & _ & Hbok & _).
+  destruct (rp_close_target_eq st s f X Hfind Hfsr Hdef Hits (eq_sym EX)) as (s3 & Est & Eid3 & Hi3).
+  clear EX. rewrite Est. unfold rf_out in Hfil.
+  split; [exact Hbok|]. split.
+  - unfold wm_put_sig. cbn [wm_st_sigs]. apply Forall_forall. intros y Hy. apply in_map_iff in Hy. destruct Hy as (y0 & <- & Hy0).
+    rewrite Forall_forall in Hoth. destruct (N.eqb_spec (wm_sig_id y0) (wm_sig_id s3)) as [E|E]; [exact Hi3|].
+    destruct (Hoth y0 Hy0) as [E'|Hi]; [rewrite Eid3 in E; contradiction|exact Hi].
+  - exists cs. split; [exact HF2|]. unfold rp_bout, wm_put_sig. cbn [wm_st_base]. exact Hfil.
+Qed.
+
+(* the loop of jls_wr_close over the signal ids *)
+Lemma rp_close_fold : forall T0 BLKS stf l st,
+  (rp_G1c T0 BLKS stf st \/ rp_done T0 BLKS stf st) ->
+  let st' := fold_left (wm_close_signal summ1 summN) l st in
+  (rp_G1c T0 BLKS stf st' \/ rp_done T0 BLKS stf st') /\ (In sid l -> rp_done T0 BLKS stf st').
+Proof.
+  intros T0 BLKS stf l. induction l as [|id l IH]; intros st H st'; [split; [exact H|intros []]|].
+  subst st'. cbn [fold_left].
+  assert (H1 : rp_G1c T0 BLKS stf (wm_close_signal summ1 summN st id) \/ rp_done T0 BLKS stf (wm_close_signal summ1 summN st id)).
+  { destruct H as [HG|HD]; [|right; apply rp_close_done; exact HD].
+    destruct (N.eq_dec id sid) as [->|Hne]; [right; apply rp_close_target; exact HG|left; apply rp_close_other; assumption]. }
+  destruct (IH _ H1) as (A & B). split; [exact A|].
+  intros [E|Hin]; [|apply B; exact Hin]. subst id.
+  assert (Hd : rp_done T0 BLKS stf (wm_close_signal summ1 summN st sid)).
+  { destruct H as [HG|HD]; [apply rp_close_target; exact HG|apply rp_close_done; exact HD]. }
+  clear - Hd rp_close_done. revert Hd. generalize (wm_close_signal summ1 summN st sid). induction l as [|i l IHl]; intros s0 Hd; [exact Hd|].
+  cbn [fold_left]. apply IHl. apply rp_close_done. exact Hd.
 Qed.
 
 End RPG.
